@@ -42,8 +42,9 @@ Flush(a, s) ==
     Charge([a EXCEPT !.unb = Zero9, !.tot = 0],
            SumUnb(a.unb, MC(s), "cpu", 9), SumUnb(a.unb, MC(s), "mem", 9))
 
-BInit == \E n \in 1..N : \E t \in TS(n, 0) : \E s \in Sems : \E sl \in Slippages :
-            LET p == Pure(t, s) IN
+BInit == \E n \in 1..N : \E tt \in TS(n, 0) : \E s \in Sems : \E sl \in Slippages :
+            LET t == Expand(tt)
+                p == Pure(t, s) IN
             /\ p.mode \in {"done", "fail"}
             /\ \E b \in Budgets(p, s) :
                 /\ t0 = t
